@@ -268,21 +268,45 @@ theorem visible_sound_partial (ign : Bool) (shapes : List Poly) (i j : VVert)
     obtain ⟨t, h0, h1, hin⟩ := (segHitsOriented_iff 1 0 _ _ _).mp hs
     exact hgen ⟨t, h0, h1, (inside_iff _).mp hin⟩
 
--- non-vacuity of `ConvexCycle`: a triangle
+-- non-vacuity of `visible_sound_partial` (all hypotheses jointly; through it also of
+-- `visible_sound_boundaryChar_partial` and `visible_shapeBlocks_false`): the counter-clockwise triangle
+-- (0,0),(4,0),(0,3) is a `ConvexCycle`, the pair (0,-1)–(5,-1) below it is visible, no vertex lies on that
+-- segment, neither end is inside; and the conclusion is not hollow: the oriented interior is not empty.
 open AdaptaVerif.Lemmas.VisSound in
-example : ConvexCycle (polyEdges [(⟨0, 0⟩ : Pt), ⟨4, 0⟩, ⟨0, 3⟩]) := by
-  refine ⟨?_, ?_, ?_⟩ <;> intro e he <;>
-    simp only [polyEdges, List.cons_append, List.nil_append, List.zip_cons_cons, List.zip_nil_right,
-      List.mem_cons, List.not_mem_nil, or_false] at he <;>
-    rcases he with rfl | rfl | rfl
-  · decide +kernel
-  · decide +kernel
-  · decide +kernel
-  · exact ⟨(⟨4, 0⟩, ⟨0, 3⟩), by simp [polyEdges], rfl, by decide +kernel⟩
-  · exact ⟨(⟨0, 3⟩, ⟨0, 0⟩), by simp [polyEdges], rfl, by decide +kernel⟩
-  · exact ⟨(⟨0, 0⟩, ⟨4, 0⟩), by simp [polyEdges], rfl, by decide +kernel⟩
-  · exact ⟨(⟨0, 3⟩, ⟨0, 0⟩), by simp [polyEdges], rfl, by decide +kernel⟩
-  · exact ⟨(⟨0, 0⟩, ⟨4, 0⟩), by simp [polyEdges], rfl, by decide +kernel⟩
-  · exact ⟨(⟨4, 0⟩, ⟨0, 3⟩), by simp [polyEdges], rfl, by decide +kernel⟩
+example :
+    let tri : Poly := [(⟨0, 0⟩ : Pt), ⟨4, 0⟩, ⟨0, 3⟩]
+    segHitsOriented 1 0 tri ⟨0, -1⟩ ⟨5, -1⟩ = false ∧ InsideOriented 1 0 tri ⟨1, 1⟩ := by
+  intro tri
+  have hC : ConvexCycle (polyEdges tri) := by
+    refine ⟨?_, ?_, ?_⟩ <;> intro e he <;>
+      simp only [tri, polyEdges, List.cons_append, List.nil_append, List.zip_cons_cons, List.zip_nil_right,
+        List.mem_cons, List.not_mem_nil, or_false] at he <;>
+      rcases he with rfl | rfl | rfl
+    · decide +kernel
+    · decide +kernel
+    · decide +kernel
+    · exact ⟨(⟨4, 0⟩, ⟨0, 3⟩), by simp [tri, polyEdges], rfl, by decide +kernel⟩
+    · exact ⟨(⟨0, 3⟩, ⟨0, 0⟩), by simp [tri, polyEdges], rfl, by decide +kernel⟩
+    · exact ⟨(⟨0, 0⟩, ⟨4, 0⟩), by simp [tri, polyEdges], rfl, by decide +kernel⟩
+    · exact ⟨(⟨0, 3⟩, ⟨0, 0⟩), by simp [tri, polyEdges], rfl, by decide +kernel⟩
+    · exact ⟨(⟨0, 0⟩, ⟨4, 0⟩), by simp [tri, polyEdges], rfl, by decide +kernel⟩
+    · exact ⟨(⟨4, 0⟩, ⟨0, 3⟩), by simp [tri, polyEdges], rfl, by decide +kernel⟩
+  have hout : ∀ p : Pt, p.y = -1 → ¬ InsideOriented 1 0 tri p := by
+    intro p hp h
+    have := h.2 (⟨0, 0⟩, ⟨4, 0⟩) (by simp [tri, polyEdges])
+    simp [area2, hp] at this
+    linarith
+  refine ⟨visible_sound_partial true [tri] (connVert [tri] ⟨0, -1⟩) (connVert [tri] ⟨5, -1⟩)
+    (by decide +kernel) 0 (by decide) (by decide +kernel) (by decide) hC (hout _ rfl) (hout _ rfl) ?_,
+    by decide, ?_⟩
+  · intro v hv t _ _ h
+    have hy : (lerp (⟨0, -1⟩ : Pt) ⟨5, -1⟩ t).y = v.y := congrArg Pt.y h
+    simp only [lerp, sub_self, mul_zero, add_zero] at hy
+    simp only [List.getElem_cons_zero, tri, List.mem_cons, List.not_mem_nil, or_false] at hv
+    rcases hv with rfl | rfl | rfl <;> norm_num at hy
+  · intro e he
+    simp only [tri, polyEdges, List.cons_append, List.nil_append, List.zip_cons_cons, List.zip_nil_right,
+        List.mem_cons, List.not_mem_nil, or_false] at he
+    rcases he with rfl | rfl | rfl <;> decide +kernel
 
 end AdaptaVerif.Props.C03
